@@ -16,11 +16,9 @@ pub trait Src {
         u64::from_le_bytes(b)
     }
     fn u128(&mut self) -> u128 { (self.u64() as u128) | ((self.u64() as u128) << 64) }
-    /// value in 0..=max (max < 256)
+    /// value in 0..=max (max < 256); a plain remainder so that random bytes are never wasted
     fn upto(&mut self, max: usize) -> usize {
-        let v = self.byte() as usize;
-        self.assume(v <= max);
-        v
+        (self.byte() as usize) % (max + 1)
     }
     fn bit(&mut self) -> Bit { if self.byte() & 1 == 1 { Bit::One } else { Bit::Zero } }
 }
